@@ -98,8 +98,13 @@ func parseFilePrefixes(s string) ([]string, error) {
 		return nil, nil
 	}
 
+	wd, err := os.Getwd()
+	if err != nil {
+		return nil, fmt.Errorf("get working directory: %w", err)
+	}
+
 	// Convert the file paths to absolute paths.
-	list := strings.Split(s, ",")
+	list := splitFilePrefixes(s, wd)
 	for i := range list {
 		p, err := filepath.Abs(list[i])
 		if err != nil {
@@ -108,6 +113,28 @@ func parseFilePrefixes(s string) ([]string, error) {
 		list[i] = p
 	}
 	return list, nil
+}
+
+// splitFilePrefixes splits the comma-separated list s into its elements. The name of the working
+// directory wd may itself contain commas; the default of -include-errors-in-files is that name, and
+// elements such as "$PWD/gen" start with it. Hence, where an element starts with wd (followed by
+// the end of the list, a comma, or a path separator), the commas inside that occurrence of wd are
+// part of the element and only the commas after it separate elements. For a working directory
+// without a comma this is exactly strings.Split(s, ",").
+func splitFilePrefixes(s, wd string) []string {
+	var list []string
+	for {
+		skip := 0
+		if rest, ok := strings.CutPrefix(s, wd); ok && (rest == "" || rest[0] == ',' || os.IsPathSeparator(rest[0])) {
+			skip = len(wd)
+		}
+		i := strings.IndexByte(s[skip:], ',')
+		if i < 0 {
+			return append(list, s)
+		}
+		list = append(list, s[:skip+i])
+		s = s[skip+i+1:]
+	}
 }
 
 func main() {
